@@ -1,16 +1,17 @@
 #!/bin/bash
 # tools/try_seed.sh <dir with patch.diff demo.py> <tier> <check ids...>
-# Confirms a seeded change (demo passes clean / fails seeded / suite still green) and runs the given checks against it.
-# /repo is restored afterwards (git checkout -- .).
-dir=$1; tier=$2; shift 2
-cd /repo || exit 2
-if [ -n "$(git status --porcelain --untracked-files=no)" ]; then echo "/repo has local modifications"; exit 2; fi
-echo "== demo on clean tree"; (cd /repo && /venv/bin/python $dir/demo.py >/tmp/seed_demo_clean.txt 2>&1; echo "exit=$?"; tail -2 /tmp/seed_demo_clean.txt)
-git apply $dir/patch.diff || { echo "patch does not apply"; exit 2; }
-echo "== demo on seeded tree"; (cd /repo && /venv/bin/python $dir/demo.py >/tmp/seed_demo_seeded.txt 2>&1; echo "exit=$?"; tail -3 /tmp/seed_demo_seeded.txt)
-if [ "$SKIP_SUITE" != "1" ]; then echo "== existing suite on seeded tree"; /venv/bin/python /verif/tools/baseline_check.py | tail -3; fi
+# Confirms a seeded change WITHOUT touching /repo: a scratch worktree of /repo HEAD gets the patch and shadows the installed
+# pymtl3 through PYTHONPATH (PV_REPO tells the checks that read source files where the tree is).
+#   - demo passes on the clean tree / fails on the seeded tree
+#   - the existing suite still passes on the seeded tree (skip with SKIP_SUITE=1)
+#   - the given checks are run against the seeded tree
+dir=$(realpath $1); tier=$2; shift 2
+wt=/tmp/pvseed_$$
+git -C /repo worktree add --detach $wt HEAD -q || exit 2
+trap 'git -C /repo worktree remove --force '$wt' >/dev/null 2>&1' EXIT
+echo "== demo on clean tree"; (cd $wt && PYTHONPATH=$wt /venv/bin/python $dir/demo.py >$wt/.demo_clean.txt 2>&1; echo "exit=$?"; tail -2 $wt/.demo_clean.txt)
+(cd $wt && git apply $dir/patch.diff) || { echo "patch does not apply"; exit 2; }
+echo "== demo on seeded tree"; (cd $wt && PYTHONPATH=$wt /venv/bin/python $dir/demo.py >$wt/.demo_seeded.txt 2>&1; echo "exit=$?"; tail -3 $wt/.demo_seeded.txt)
+if [ "$SKIP_SUITE" != "1" ]; then echo "== existing suite on seeded tree"; PV_REPO=$wt /venv/bin/python /verif/tools/baseline_check.py | tail -3; fi
 cd /verif
-for c in "$@"; do echo "== check $c $tier"; ./vcheck $c $tier 2>&1 | tail -4 | cut -c1-220; done
-git -C /repo checkout -- .
-rm -f /tmp/seed_demo_clean.txt /tmp/seed_demo_seeded.txt
-git -C /repo status --porcelain --untracked-files=no
+for c in "$@"; do echo "== check $c $tier"; PV_REPO=$wt PYTHONPATH=$wt ./vcheck $c $tier 2>&1 | tail -4 | cut -c1-220; done
